@@ -14,6 +14,12 @@ def main():
 	ctx.workdir.mkdir(parents=True, exist_ok=True)
 	rc = 0
 	try:
+		ov = os.environ.get('VERIF_OVERLAY')
+		if ov:
+			import gambit._cython.metric as _m, gambit._cython.kmers as _k
+			if not (_m.__file__.startswith(ov) and _k.__file__.startswith(ov)):
+				raise RuntimeError(f'sanitizer overlay not loaded: {_m.__file__}')
+			ctx.notes['overlay_loaded'] = {spec['shard'].get('sanitizer', 'plain'): 1}
 		from vf import reach
 		mon = reach.start(getattr(mod, 'REACH', []))
 		try:
